@@ -24,6 +24,10 @@ class PathAbort(BaseException):
     """The current path cannot be continued (solver said unknown, nondeterministic replay, ...)."""
 
 
+class Infeasible(BaseException):
+    """An assumption of the harness contradicts the path condition: the path is outside the domain (pruned, not a verdict)."""
+
+
 class Budget(BaseException):
     """Wall-clock or path budget of the obligation exhausted."""
 
@@ -726,10 +730,24 @@ class Engine:
 
     def assume(self, cond):
         if isinstance(cond, SymBool):
+            atom = cond.atom
+            if atom is not None:
+                known = self.facts.get(atom[0], 7)
+                if known & atom[1] == known:
+                    return
+                if known & atom[1] == 0:
+                    raise Infeasible("assumption contradicts the path condition")
             self._add(cond.t)
             self._learn(cond.atom, True)
+            if self.model is None and self.decisions:
+                # the model no longer fits: make sure the path is still feasible (prunes out-of-domain paths early)
+                r = self._check()
+                if r == z3.unsat:
+                    raise Infeasible("assumption contradicts the path condition")
+                if r == z3.sat:
+                    self.model = self.solver.model()
         elif not cond:
-            raise PathAbort("assumption is false")
+            raise Infeasible("assumption is false")
 
     def branch(self, sb: SymBool) -> bool:
         atom = sb.atom
@@ -809,6 +827,8 @@ class Engine:
                     status = "ok"
                 except PathAbort as e:
                     out, status = str(e), "abort"
+                except Infeasible as e:
+                    out, status = str(e), "pruned"
                 except Unsupported as e:
                     out, status = str(e), "unsupported"
                 self.paths += 1
